@@ -57,7 +57,7 @@ CLAIMS = {
              "arms self.disable with ms=pulse_ms on the enabling path; the max_hold_duration watchdog is armed on "
              "every enabling path, in milliseconds, not restartable, removed by disable; hold power 0 is refused; "
              "control events map parameters one-to-one onto the verifying API. PSU wait arithmetic and timer "
-             "interleavings are not decided. Also: the constant full-power hold fallback is granted only by allow_enable. Also: the software-timed switch-off is armed before the coil is switched on. Also: DelayManager.add never runs the delayed callback itself and registers with the clock on every path (the switch-off armed before the switch-on cannot run first).",
+             "interleavings are not decided. Also: the constant full-power hold fallback is granted only by allow_enable. Also: the software-timed switch-off is armed before the coil is switched on. Also: DelayManager.add never runs the delayed callback itself and registers with the clock on every path (the switch-off armed before the switch-on cannot run first). Also: no coil-driving device bounds a value with min / max against a max_* limit (refused, never clamped).",
         technique="who-may-call/escape analysis; def-use provenance across call sites; feasible-path guard analysis; dead-guard interval check; unit inference",
         ref="4/C08"),
     "C13": dict(
@@ -70,7 +70,7 @@ CLAIMS = {
              "grid (clock read only at creation, grid advanced before the callback, cancel tested before callback and "
              "before rescheduling); the Timer device's start/stop/pause keep one periodic task, cancel a pending timed "
              "pause on stop/start, count only while running, complete exactly at the end value; an accepted Mode.stop "
-             "clears the mode's delays. Firing instants and check() truthfulness over histories are not decided. Also: whoever changes a timer's count checks for completion afterwards and the check reports what it did; reset/add_if_doesnt_exist hand everything to add(), unnamed delays get unique keys. Also: whoever (re)creates the periodic tick of a timer leaves it armed (no removal after the creation). Also: every store to Timer.ticks is classified (start value, +-tick, explicit set/add/subtract/jump) and mode-scoped delays are armed on the mode's own delay manager. Also: a timed pause arms the resume for exactly the given length in ms, scaled inside the truncation. Also: loading a timer sets tick interval, start value and count from the configuration unconditionally. Also: DelayManager.add only schedules; a timer control event is registered with arguments built from its own entry whenever its handler reads one.",
+             "clears the mode's delays. Firing instants and check() truthfulness over histories are not decided. Also: whoever changes a timer's count checks for completion afterwards and the check reports what it did; reset/add_if_doesnt_exist hand everything to add(), unnamed delays get unique keys. Also: whoever (re)creates the periodic tick of a timer leaves it armed (no removal after the creation). Also: every store to Timer.ticks is classified (start value, +-tick, explicit set/add/subtract/jump) and mode-scoped delays are armed on the mode's own delay manager. Also: a timed pause arms the resume for exactly the given length in ms, scaled inside the truncation. Also: loading a timer sets tick interval, start value and count from the configuration unconditionally. Also: DelayManager.add only schedules; a timer control event is registered with arguments built from its own entry whenever its handler reads one. Also: a change of the tick interval is stored on every path, running or not.",
         technique="unit inference over all delay call sites; CFG must-pass/dominance pairing; def-use of the stored callback record",
         ref="4/C13"),
     "C12": dict(
@@ -100,7 +100,7 @@ CLAIMS = {
              "and remembered-state store is dominated by the CRC-equal and complete-frame sides; CRC8 table equals the "
              "polynomial 0x07 table; OPP resync only on a gen2 address byte, one byte at a time; FAST message "
              "processors apply switch data synchronously (no deferral). Split-invariance as such and switch states "
-             "after arbitrary valid streams are not decided. Also: OPP input bits are the data bytes assembled big-endian and each changed bit is reported once with its index and polarity; every round of a parser loop consumes input; every known frame type is dispatched. Also: every changed OPP input bit is reported (exact selection) and the FAST full switch report is unpacked completely (8 bits per byte, number = offset * 8 + bit, state = that bit). Also: the OPP resync scan regains sync on every gen2 frame start that the in-sync branch dispatches (a command-byte test in the scan must name all of them). Also: every trip of the OPP poll loop sends a poll, also after a timed-out wait; the answer flag is cleared only after an answer. Also: the incremental decoders leave their decode loop only when no complete frame is buffered (or at shutdown), never because of a frame's content. Also: a full FAST switch report is applied with the logical state (raw xor invert) for every switch of the platform whose logical state differs. Also: each OPP input reader (initial and running) accepts a report from exactly the cards of the table it takes the card from; every connected chain is registered inside the port loop (generic LASTONLY-0).",
+             "after arbitrary valid streams are not decided. Also: OPP input bits are the data bytes assembled big-endian and each changed bit is reported once with its index and polarity; every round of a parser loop consumes input; every known frame type is dispatched. Also: every changed OPP input bit is reported (exact selection) and the FAST full switch report is unpacked completely (8 bits per byte, number = offset * 8 + bit, state = that bit). Also: the OPP resync scan regains sync on every gen2 frame start that the in-sync branch dispatches (a command-byte test in the scan must name all of them). Also: every trip of the OPP poll loop sends a poll, also after a timed-out wait; the answer flag is cleared only after an answer. Also: the incremental decoders leave their decode loop only when no complete frame is buffered (or at shutdown), never because of a frame's content. Also: a full FAST switch report is applied with the logical state (raw xor invert) for every switch of the platform whose logical state differs. Also: each OPP input reader (initial and running) accepts a report from exactly the cards of the table it takes the card from; every connected chain is registered inside the port loop (generic LASTONLY-0). Also: every full switch report is applied (no comparison with the remembered report); a framed decoder dispatches the frame it cut out, never the raw chunk.",
         technique="wake-up/arm agreement of asyncio primitives; who-may-call; CFG guards; slice/length constant agreement; generated CRC table oracle",
         ref="4/C14"),
     "C07": dict(
@@ -117,7 +117,7 @@ CLAIMS = {
              "permanently while being loaded is removed (by stored keys or by callback) when the mode unloads it; "
              "enable/disable idempotence guards read the state they write; active_modes is mutated only by "
              "set_mode_state and sorted by (priority, name) descending after every change. Registry equality for "
-             "arbitrary user mode code and overlapping requests beyond the flag guards are not decided. Also: switch handlers are removed by key; add_mode_event_handler forwards kwargs and returns the key; clear_context loops act on their records. Also: every non-empty result of a start method is recorded as a stop method and every recorded stop method runs unconditionally. Also: the returned EventHandlerKey carries the parsed event name and the stored key; removal by key is exact; mode delays live on the mode's own DelayManager; clear_context never removes handlers by method or by event. Also: the start queue a mode parks is released and forgotten when it has stopped (shared with C02); every clean-up step of a device_removed_from_mode is unconditional or guarded only by the presence of the object it acts on. Also: a config player plays for a mode only while that mode is active, under the mode's own context. Also: the game waits for every active game mode when it stops, also one already stopping. Also: removal of a key list removes every key of the list through the by-key removal. Also: a mode device that owns a delay manager and arms delays clears them on every path of its unload (tabled: timer, ball save, drop target bank with reasons; logic block by required name) - F23 and F24 found by this rule and fixed.",
+             "arbitrary user mode code and overlapping requests beyond the flag guards are not decided. Also: switch handlers are removed by key; add_mode_event_handler forwards kwargs and returns the key; clear_context loops act on their records. Also: every non-empty result of a start method is recorded as a stop method and every recorded stop method runs unconditionally. Also: the returned EventHandlerKey carries the parsed event name and the stored key; removal by key is exact; mode delays live on the mode's own DelayManager; clear_context never removes handlers by method or by event. Also: the start queue a mode parks is released and forgotten when it has stopped (shared with C02); every clean-up step of a device_removed_from_mode is unconditional or guarded only by the presence of the object it acts on. Also: a config player plays for a mode only while that mode is active, under the mode's own context. Also: the game waits for every active game mode when it stops, also one already stopping. Also: removal of a key list removes every key of the list through the by-key removal. Also: a mode device that owns a delay manager and arms delays clears them on every path of its unload (tabled: timer, ball save, drop target bank with reasons; logic block by required name) - F23 and F24 found by this rule and fixed. Also: a sequence shot drops its sequences in progress on unload.",
         technique="event-chain extraction; CFG must-pass typestate; who-may-write; sibling agreement over ConfigPlayer/ModeDevice subclasses",
         ref="4/C07"),
     "C05": dict(
@@ -154,7 +154,7 @@ CLAIMS = {
              "exactly one ball to the ball_missing_target and reports one missing ball, takes one available ball off "
              "exactly when a replacement was found on the path and is requested for the device that lost it; the arrival "
              "callback sets up one eject per unclaimed ball and announces balls_available once per new ball. Equality with the physical machine, conservation and bounds over all "
-             "schedules - the bulk of the property - are NOT decided (runtime arithmetic over interleavings). Also: a ball assumed to have jumped between playfields leaves both counts of the source and enters both of the target, only towards a playfield with a negative count, one ball per deficit. Also: lost/ejected/incoming ball handlers and the arrival loops move exactly one ball per event. Also: the count handler's old-count snapshot is read after the await that delivers the new count and nothing is awaited before the new count is stored; the switch counter distrusts a jam-only count of one exactly when it had balls before; end_eject is told the awaited confirmation outcome (or False), never an assumed True; ball-search give-up writes off exactly the playfield's count read before it is zeroed. Also: a ball put into another device's unclaimed pool is taken out of the device's own pool on the same path (CLAIM-4, exposed defect F19, fixed). Also: an eject is tracked from a settled count (EjectTracker.will_eject and the entrance counter wait for a stable count first); the entrance counter keeps one ignore window per switch and never clears the whole table. Also: balls that left together with an ejected one are reported one by one and the recount is stored on every path after the report (F22, fixed); the configured ball switches are never edited (generic CONFIG-0), so the capacity stays the configured one.",
+             "schedules - the bulk of the property - are NOT decided (runtime arithmetic over interleavings). Also: a ball assumed to have jumped between playfields leaves both counts of the source and enters both of the target, only towards a playfield with a negative count, one ball per deficit. Also: lost/ejected/incoming ball handlers and the arrival loops move exactly one ball per event. Also: the count handler's old-count snapshot is read after the await that delivers the new count and nothing is awaited before the new count is stored; the switch counter distrusts a jam-only count of one exactly when it had balls before; end_eject is told the awaited confirmation outcome (or False), never an assumed True; ball-search give-up writes off exactly the playfield's count read before it is zeroed. Also: a ball put into another device's unclaimed pool is taken out of the device's own pool on the same path (CLAIM-4, exposed defect F19, fixed). Also: an eject is tracked from a settled count (EjectTracker.will_eject and the entrance counter wait for a stable count first); the entrance counter keeps one ignore window per switch and never clears the whole table. Also: balls that left together with an ejected one are reported one by one and the recount is stored on every path after the report (F22, fixed); the configured ball switches are never edited (generic CONFIG-0), so the capacity stays the configured one. Also: the ball-left timer lowers a switch counter's count exactly when the count is reliable; a hold-coil release always ends its release state; an entrance during an eject is announced and counted together on every path.",
         technique="CFG must-pass / guard analysis; who-may-call / who-may-write; paired-delta extraction",
         ref="4/C04"),
     "C06": dict(
@@ -170,7 +170,7 @@ CLAIMS = {
              "[0, balls known], the ball ends exactly on the positive-to-zero transition or on request; the end-ball flag "
              "is cleared before anything is awaited; players are created only on the non-vetoed add path gated by "
              "ending / max players / ball 1; machine.game is set during the run and cleared on stop. Requests arriving "
-             "inside queue events are only decided as far as these ordering rules go. Also: each game resets the reused mode object's state before anything is awaited; configured end_ball/end_game events are wired to methods that request the end; the wait for the first player is always preceded by a set or a request and released by a completed add. Also: the game end stops and waits for every active game mode (no further condition, whole collection, noted as awaited before stop() is called). Also: an async mode's task is created in _started and cancelled in _stopped and on machine stop; the task's end stops the mode. Also: the drain chain (drain/trough-tagged devices -> ball_drain relay with the unclaimed balls -> Game.ball_drained through the clamping setter, listener registered per ball before the first ball counts); nobody outside the game mode stops the game mode object directly. Also: a request to end the game or the ball is never swallowed (end_game marks and asks for the ball end on every path, end_ball always releases the wait). Also: every game evaluates balls_per_game and max_players afresh before its first turn.",
+             "inside queue events are only decided as far as these ordering rules go. Also: each game resets the reused mode object's state before anything is awaited; configured end_ball/end_game events are wired to methods that request the end; the wait for the first player is always preceded by a set or a request and released by a completed add. Also: the game end stops and waits for every active game mode (no further condition, whole collection, noted as awaited before stop() is called). Also: an async mode's task is created in _started and cancelled in _stopped and on machine stop; the task's end stops the mode. Also: the drain chain (drain/trough-tagged devices -> ball_drain relay with the unclaimed balls -> Game.ball_drained through the clamping setter, listener registered per ball before the first ball counts); nobody outside the game mode stops the game mode object directly. Also: a request to end the game or the ball is never swallowed (end_game marks and asks for the ball end on every path, end_ball always releases the wait). Also: every game evaluates balls_per_game and max_players afresh before its first turn. Also: a slam tilt marks the game whenever there is one.",
         technique="regular event-trace abstraction + language inclusion (product construction); CFG dominance/guards; who-may-write",
         ref="4/C06"),
     "C09": dict(
@@ -184,7 +184,7 @@ CLAIMS = {
              "requires, software fade steps are clamped and end on the target; a running software fade is cancelled "
              "before a newer command takes effect; the batch system records every value it sends and skips only "
              "finished fades equal to the recorded state. Correctness of the suppression shortcuts over histories, "
-             "interpolated values and batching are not decided. Also: colour read from stack[0] and a transparent entry defers to exactly stack[1:]; both colours gamma/colour corrected before the channel split, white = min(r,g,b); set_fade ends in a command for the target or a fade task whose last command is the target; every dirty light ends up in a sent batch, unfinished fades are rescheduled and the scheduler is woken; the blend ratio of a running fade is (t - start) / (end - start), used only where start < t <= end, with the endpoint itself returned outside (interpolation never leaves the endpoints); a new fade starts from the colour shown below the new entry, read before the old entry of the same key is removed. Also: start and target brightness of every channel come from the same formula under the same conditions; a light joins a running batch exactly when it directly succeeds the previous one and a brightness joins the running list exactly within the fade tolerance and batch size; the dirty flag is consumed right after the wake-up; stack scans match the key / opaque entries exactly; each key's fade-out has its own clean-up timer and starts from the colour of the removed key's own layer. Also: the per-key fade timer name is shared by arm and cancel sites; the suppression shortcuts index the remembered (colour, fade, done) tuple by its layout. Also: the handle of the running software fade is written only where fades are started or replaced, never by the fade coroutine. Also: a light uses its own colour-correction profile when it names one, the machine default only otherwise. Also: removing a key that is in the stack always takes its entry out (also while it fades out) and updates the light; the brightness subscription is renewed on every path (generic REARM-0). Also: every colour command becomes a stack entry (color / on / off never return before _add_to_stack; arguments handed on); the light player addresses stacks under one key expression, walks every light, records every colour it set and removes exactly those; the update shortcuts read the remembered fade by its stored layout, also through an unpacking.",
+             "interpolated values and batching are not decided. Also: colour read from stack[0] and a transparent entry defers to exactly stack[1:]; both colours gamma/colour corrected before the channel split, white = min(r,g,b); set_fade ends in a command for the target or a fade task whose last command is the target; every dirty light ends up in a sent batch, unfinished fades are rescheduled and the scheduler is woken; the blend ratio of a running fade is (t - start) / (end - start), used only where start < t <= end, with the endpoint itself returned outside (interpolation never leaves the endpoints); a new fade starts from the colour shown below the new entry, read before the old entry of the same key is removed. Also: start and target brightness of every channel come from the same formula under the same conditions; a light joins a running batch exactly when it directly succeeds the previous one and a brightness joins the running list exactly within the fade tolerance and batch size; the dirty flag is consumed right after the wake-up; stack scans match the key / opaque entries exactly; each key's fade-out has its own clean-up timer and starts from the colour of the removed key's own layer. Also: the per-key fade timer name is shared by arm and cancel sites; the suppression shortcuts index the remembered (colour, fade, done) tuple by its layout. Also: the handle of the running software fade is written only where fades are started or replaced, never by the fade coroutine. Also: a light uses its own colour-correction profile when it names one, the machine default only otherwise. Also: removing a key that is in the stack always takes its entry out (also while it fades out) and updates the light; the brightness subscription is renewed on every path (generic REARM-0). Also: every colour command becomes a stack entry (color / on / off never return before _add_to_stack; arguments handed on); the light player addresses stacks under one key expression, walks every light, records every colour it set and removes exactly those; the update shortcuts read the remembered fade by its stored layout, also through an unpacking. Also: the default fade stands in only for a fade that was not given (None).",
         technique="who-may-write; CFG must-pass / definite assignment; guard analysis; unit inference; sibling interface completeness",
         ref="4/C09"),
     "C10": dict(
@@ -218,7 +218,7 @@ CLAIMS = {
              "VariablePlayer.clear_context examines every block entry; which player is addressed: variable_player "
              "writes (var, value) through add/set_with_kwargs to the current player or to player_list[N - 1] for a "
              "configured number N, machine variables only for *_machine actions, and both access paths of the player "
-             "placeholder index player_list[N] after an existence check or read the current player. Also: at turn start every game mode is re-bound (nothing but is_game_mode selects, all modes visited) and the ball-end barrier waits for every game mode that stops at ball end. Also: a new player's variable events are switched on (all values sent) by the completion callback of player_added; score-queue additions are conserved; a lazily remembered selection of a mode device is dropped on every unload path (MEMO-11); the generic mode-start auto-enable is never in effect for a device whose enable() writes persisted enable flags, its own or its members' (RESTORE-11). Also: every clean-up step of a device_removed_from_mode runs whenever the device is unloaded; the per-player restart list is filled at ball end for exactly the active game modes that ask for it, started completely and replaced by an empty list at the player's next ball. Also: the previous value in the change event is the stored value itself (0 only for a new variable); a mode loads its devices with its own player. Also: a new turn resets only the per-ball extra-ball count; the timer's per-run values are set from the configuration at every load; send_all_variable_events posts every simple variable. Also: stopping a mode clears its delays (a delayed control event never reaches the next player's devices); what is stored in a player variable is not a shallow copy or element of an object that outlives the player. Also: a bonus run starts its total from zero; a new player joins the list in the step that numbered him.",
+             "placeholder index player_list[N] after an existence check or read the current player. Also: at turn start every game mode is re-bound (nothing but is_game_mode selects, all modes visited) and the ball-end barrier waits for every game mode that stops at ball end. Also: a new player's variable events are switched on (all values sent) by the completion callback of player_added; score-queue additions are conserved; a lazily remembered selection of a mode device is dropped on every unload path (MEMO-11); the generic mode-start auto-enable is never in effect for a device whose enable() writes persisted enable flags, its own or its members' (RESTORE-11). Also: every clean-up step of a device_removed_from_mode runs whenever the device is unloaded; the per-player restart list is filled at ball end for exactly the active game modes that ask for it, started completely and replaced by an empty list at the player's next ball. Also: the previous value in the change event is the stored value itself (0 only for a new variable); a mode loads its devices with its own player. Also: a new turn resets only the per-ball extra-ball count; the timer's per-run values are set from the configuration at every load; send_all_variable_events posts every simple variable. Also: stopping a mode clears its delays (a delayed control event never reaches the next player's devices); what is stored in a player variable is not a shallow copy or element of an object that outlives the player. Also: a bonus run starts its total from zero; a new player joins the list in the step that numbered him. Also: no method of a logic block wipes all its delays (the hit window's exit is device state shared by all players).",
         technique="who-may-write; CFG must-pass through super() chains; def-use discovery of player-bound attributes; freshness of stored values",
         ref="4/C11"),
     "C15": dict(
@@ -232,7 +232,7 @@ CLAIMS = {
              "record contains every key the loader reads, only persistent variables are written, expired or malformed "
              "records are skipped; FileManager.save is called only by the writer thread. Known finding F6b: nothing waits "
              "for the daemon writer thread at shutdown. Crash points (no fsync reasoning) and value equality after reload "
-             "are not decided. Also: the writer loop runs while the machine is not stopped and writes exactly when the dirty flag was raised; every well-formed, unexpired record is restored and a record is skipped only when malformed or expired. Also: the record fields are updated before the disk write is requested and expiry = now + expire_secs; the temp file location and per-target name; the YAML writer and reader open with the same explicitly named text encoding; the writer threads are told to stop only in MachineController.shutdown, which _do_stop reaches after the `shutdown` event was posted and the queue drained. Also: the shutdown flush depends on nothing but the dirty flag (a busy file manager is waited for); every expiry deadline is wall-clock now + expire_secs and the loader is handed the wall clock. Also: the handler of a failed write only logs (nothing in it can raise and end the writer thread); loading converts exactly maps to dict and sequences to list. Also: every normal way out of the writer thread passes the shutdown flush test; a restarted expiry deadline is written to disk on every path. Also: an operator setting's variable is marked persistent before its value is set (the set is what writes).",
+             "are not decided. Also: the writer loop runs while the machine is not stopped and writes exactly when the dirty flag was raised; every well-formed, unexpired record is restored and a record is skipped only when malformed or expired. Also: the record fields are updated before the disk write is requested and expiry = now + expire_secs; the temp file location and per-target name; the YAML writer and reader open with the same explicitly named text encoding; the writer threads are told to stop only in MachineController.shutdown, which _do_stop reaches after the `shutdown` event was posted and the queue drained. Also: the shutdown flush depends on nothing but the dirty flag (a busy file manager is waited for); every expiry deadline is wall-clock now + expire_secs and the loader is handed the wall clock. Also: the handler of a failed write only logs (nothing in it can raise and end the writer thread); loading converts exactly maps to dict and sequences to list. Also: every normal way out of the writer thread passes the shutdown flush test; a restarted expiry deadline is written to disk on every path. Also: an operator setting's variable is marked persistent before its value is set (the set is what writes). Also: the finished temp file replaces the target in one step (no remove / rename of the target); a removed machine variable is removed on disk by rewriting the whole set.",
         technique="CFG pairing on normal and exceptional paths; order/dominance; dead-guard check; record-key table agreement",
         ref="4/C15"),
     "C16": dict(
@@ -246,7 +246,7 @@ CLAIMS = {
              "and name access add their own subscription, a failed evaluation still subscribes to everything it read; the "
              "events placeholders wait for have the prefix the owners post (player_, machine_var_) and exist in the game; "
              "the config-player subscription loop re-evaluates, re-subscribes with the same binding and ends only on "
-             "cancellation or shutdown. Semantic equivalence over all expressions and freshness over all histories are not decided. Also: boolean operators fold left to right, chained comparisons are refused not truncated, tuple and subscript forms use their evaluated parts, subscriptions of sub-evaluations inside loops are accumulated, failures are never swallowed and are TemplateEvalErrors while subscribing; settings are read and subscribed through the machine variable they live in and every *_placeholder subscription re-arms itself; producer side: set_machine_var stores the new value on every path before posting machine_var_<name>, guarded only by the computed change; the DeviceMonitor setter stores on every path, then notifies under the public attribute name exactly when the attribute already had a different value, and the notification resolves every future filed under (device, attribute) - the key subscribe_attribute files under - before forgetting them. Also: conditions of conditional handlers are evaluated in the handler's own iteration of the dispatch loop; a failed, incomplete or empty evaluation yields the template's default on the plain and the subscribing path, a missing variable is passed on only in strict mode. Also: a setting placeholder takes its value from the settings controller's get_setting_value; PlayerPlaceholder subscriptions are woken by player_turn_started and player_turn_ended. Also: a text with several placeholders is woken by the first of its subscriptions; item and attribute access of a numbered player use the same index, checked against the list length. Also: a player variable posts its change event for every simple value (isinstance) that changed or is new. Also: no function on the evaluation path that is memoised by argument value answers from changeable state (generic MEMO-0). Also: enable() / disable() wake the subscribers of `enabled` whichever way the state is stored (in the method, or in the setter on every path).",
+             "cancellation or shutdown. Semantic equivalence over all expressions and freshness over all histories are not decided. Also: boolean operators fold left to right, chained comparisons are refused not truncated, tuple and subscript forms use their evaluated parts, subscriptions of sub-evaluations inside loops are accumulated, failures are never swallowed and are TemplateEvalErrors while subscribing; settings are read and subscribed through the machine variable they live in and every *_placeholder subscription re-arms itself; producer side: set_machine_var stores the new value on every path before posting machine_var_<name>, guarded only by the computed change; the DeviceMonitor setter stores on every path, then notifies under the public attribute name exactly when the attribute already had a different value, and the notification resolves every future filed under (device, attribute) - the key subscribe_attribute files under - before forgetting them. Also: conditions of conditional handlers are evaluated in the handler's own iteration of the dispatch loop; a failed, incomplete or empty evaluation yields the template's default on the plain and the subscribing path, a missing variable is passed on only in strict mode. Also: a setting placeholder takes its value from the settings controller's get_setting_value; PlayerPlaceholder subscriptions are woken by player_turn_started and player_turn_ended. Also: a text with several placeholders is woken by the first of its subscriptions; item and attribute access of a numbered player use the same index, checked against the list length. Also: a player variable posts its change event for every simple value (isinstance) that changed or is new. Also: no function on the evaluation path that is memoised by argument value answers from changeable state (generic MEMO-0). Also: enable() / disable() wake the subscribers of `enabled` whichever way the state is stored (in the method, or in the setter on every path). Also: machine.time subscriptions wake when the field changes (sleep expressions compared as linear forms).",
         technique="table oracle against CPython operator semantics; evaluator contract; def-use flow of subscription lists on the CFG",
         ref="4/C16"),
     "C17": dict(
@@ -260,7 +260,7 @@ CLAIMS = {
              "runs before completion events; pause/advance/step_back cancel the pending step first; LightPlayer colours under "
              "key=full_context and clear_context/remove use the same key and record, the light's removal scans are left early "
              "only at the key; ShowPlayer and CoilPlayer clear what they started. k-th step instants under speed updates, "
-             "token substitution and concurrent shows on one light are not decided. Also: played/looped/completed/stopped events are queued and posted at their moments; start-step table and negative index wrap; the light player honours the stop colour and forwards the step's start time. Also: advance() / step_back() cancel the pending step, rebase the clock and move the index before they run the step (once, last). Also: a per-show token cache is keyed by the token values (CACHE-17); the events list of a step is fresh per play; replace_or_advance_show keeps or advances the running instance only when it has already run a step and stands exactly at / one step before the requested step (SYNC-17); RunningShow.update applies every value that is not None (UPD-17). Also: every play parameter reaches the RunningShow under its own name on every route (Show.play, play_show_with_config, replace_or_advance_show, ShowPlayer._play/_queue, ShowConfig field order), defaults replace only None; a replaced running show is stopped on every path that starts its successor; the show player's action table and instance actions; config players change handed settings only in a private copy. Also: the show-pool pass-throughs hand every parameter on under its own name. Also: at its start a show runs its start callback (stopping the replaced show) before its first step; each key's fade-out entry has a clean-up timer of its own. Also: a show started by a condition is stopped by it under the same key, instance dict and show name. Also: the light's hardware-update shortcuts read the remembered fade correctly (shared with C09), so stopped shows leave the hardware as they found it.",
+             "token substitution and concurrent shows on one light are not decided. Also: played/looped/completed/stopped events are queued and posted at their moments; start-step table and negative index wrap; the light player honours the stop colour and forwards the step's start time. Also: advance() / step_back() cancel the pending step, rebase the clock and move the index before they run the step (once, last). Also: a per-show token cache is keyed by the token values (CACHE-17); the events list of a step is fresh per play; replace_or_advance_show keeps or advances the running instance only when it has already run a step and stands exactly at / one step before the requested step (SYNC-17); RunningShow.update applies every value that is not None (UPD-17). Also: every play parameter reaches the RunningShow under its own name on every route (Show.play, play_show_with_config, replace_or_advance_show, ShowPlayer._play/_queue, ShowConfig field order), defaults replace only None; a replaced running show is stopped on every path that starts its successor; the show player's action table and instance actions; config players change handed settings only in a private copy. Also: the show-pool pass-throughs hand every parameter on under its own name. Also: at its start a show runs its start callback (stopping the replaced show) before its first step; each key's fade-out entry has a clean-up timer of its own. Also: a show started by a condition is stopped by it under the same key, instance dict and show name. Also: the light's hardware-update shortcuts read the remembered fade correctly (shared with C09), so stopped shows leave the hardware as they found it. Also: a show step hands its nominal time to the players it drives.",
         technique="expression-shape and CFG dominance on the step path; loop-account guards; key-agreement between register and clear sites",
         ref="4/C17"),
     "C18": dict(
@@ -286,7 +286,7 @@ CLAIMS = {
              "dict/list and is recognised before pair parsing; both socket readers consume the stream only through "
              "readline() and a single readexactly(n) whose n is the integer after the byte marker of the same line, raise "
              "on end of stream and hand out commands one by one in arrival order; one command per line is sent. "
-             "Round-trip equality over all values (floats, nested JSON types) is not decided. Also: read_message strips exactly the line terminator, takes the payload branch iff the byte marker is present, hands text (and payload) to the decoder and returns every decoded command. Also: the decoded command and parameters reach the command handler unchanged (no rebinding or in-place edit in process_bcp_message, the receive loop passes them as decoded); the encoder's type dispatch and the decoder's tag dispatch are exact (one test per branch, earlier tests negated, nothing added) and every non-empty pair with a new name is decoded. Also: the JSON form is dumped with the MPF encoder and no narrowing option. Also: the JSON body is the dump itself and is loaded as it arrived (no rewriting on either side). Also: the decoder is not memoised (it hands out a dict it built: generic MEMO-0); each tagged branch converts the text once, directly to its type. Also: the wire form of every kind of value is decided by evaluating the encoder's string expressions along every path (tag + quote(str(v), '') once; None: the tag alone; strings: encoded once), so the verdict does not depend on how the encoder spells the tagging.",
+             "Round-trip equality over all values (floats, nested JSON types) is not decided. Also: read_message strips exactly the line terminator, takes the payload branch iff the byte marker is present, hands text (and payload) to the decoder and returns every decoded command. Also: the decoded command and parameters reach the command handler unchanged (no rebinding or in-place edit in process_bcp_message, the receive loop passes them as decoded); the encoder's type dispatch and the decoder's tag dispatch are exact (one test per branch, earlier tests negated, nothing added) and every non-empty pair with a new name is decoded. Also: the JSON form is dumped with the MPF encoder and no narrowing option. Also: the JSON body is the dump itself and is loaded as it arrived (no rewriting on either side). Also: the decoder is not memoised (it hands out a dict it built: generic MEMO-0); each tagged branch converts the text once, directly to its type. Also: the wire form of every kind of value is decided by evaluating the encoder's string expressions along every path (tag + quote(str(v), '') once; None: the tag alone; strings: encoded once), so the verdict does not depend on how the encoder spells the tagging. Also: the payload marker is the whole parameter `bytes` with its separators, and lines are cut at the marker they were tested for.",
         technique="layer counting of quote/unquote calls per CFG branch; tag table agreement; stream-primitive who-may-call",
         ref="4/C19"),
     "C20": dict(
